@@ -4,13 +4,14 @@
    PARTIAL: proved are the order conditions of the tableaux the step maps were proved equal to in
    C01, exactness on polynomial integrands / time-only dynamics for every M, the stability
    polynomials, the convergence theorem "local error C h^(p+1) + Lipschitz step map => global error
-   K h^p" and the time rescaling around CasADi's integrators.  NOT proved: that the order
-   conditions imply the local error bound for a general smooth f (multivariate Taylor expansion),
-   and superconvergence 2d-1 / 2d of collocation; these enter C03_global_error_partial as the
-   hypothesis on e and are measured numerically by the check. *)
+   K h^p", the time rescaling around CasADi's integrators, and — complete, local error bound proved by
+   Taylor-Lagrange — order-1 convergence of expl_euler for every Lipschitz scalar ODE and order-4 convergence
+   of rk on the linear test equation (Proofs/EulerConv.v).  NOT proved: the local error bound of rk for a
+   general smooth f (multivariate Taylor expansion) and superconvergence 2d-1 / 2d of collocation; these
+   enter C03_global_error_partial as the hypothesis on e and are measured numerically by the check. *)
 From Coq Require Import Reals ZArith QArith Qcanon List Lia Bool.
 From Coquelicot Require Import Coquelicot.
-From RV Require Import Base.Num Base.Vec Mech.Intg Spec.SpecDyn Inst Proofs.QcInst Proofs.ConvProofs Proofs.ConvReal.
+From RV Require Import Base.Num Base.Vec Mech.Intg Spec.SpecDyn Inst Proofs.QcInst Proofs.ConvProofs Proofs.ConvReal Proofs.DerProofs Proofs.EulerConv Proofs.EulerConvVec.
 Import ListNotations.
 
 Theorem C03_rk4_order_conditions :
@@ -100,6 +101,94 @@ Theorem C03_builtin_quadrature_rescaling :
   forall s, is_derive (fun s' => Q (t0 + s' * DT)%R) s (DT * q (t0 + s * DT))%R.
 Proof. exact rescaled_quadrature. Qed.
 Print Assumptions C03_builtin_quadrature_rescaling.
+
+(* COMPLETE convergence statements about the model's own loop at the instance of the reals, with the local error
+   bound PROVED (Taylor-Lagrange), not assumed.
+   Explicit Euler, any scalar ODE x' = f(t,x) with f Lipschitz in x and a solution with bounded second derivative
+   on the horizon: every intermediate state of discrete_system is within K/2 (e^(TL)-1)/L * h of the exact
+   solution — order 1 in h = T/M. *)
+Theorem C03_euler_converges :
+  forall (f : R -> R -> R) (x : R -> R) (t0 T L K : R) (M : nat),
+  (0 < T)%R -> (0 < L)%R -> (0 < M)%nat ->
+  (forall t, (t0 <= t <= t0 + T)%R -> is_derive x t (f t (x t))) ->
+  (forall t, (t0 <= t <= t0 + T)%R -> ex_derive_n x 2 t) ->
+  (forall t, (t0 <= t <= t0 + T)%R -> (Rabs (Derive_n x 2 t) <= K)%R) ->
+  (forall t a b, (t0 <= t <= t0 + T)%R -> (Rabs (f t a - f t b) <= L * Rabs (a - b))%R) ->
+  let h := (T / INR M)%R in
+  let sys := mkSys (fun X t => [f t (nth 0 X 0%R)]) (fun _ _ => []) in
+  let st := @discrete_system R ROps (intg_expl_euler sys) M 0 [x t0] T t0 in
+  forall j, (j <= M)%nat ->
+    (Rabs (nth 0 (nth j (ds_X st) [x t0]) 0 - x (t0 + INR j * h)) <= (K / 2 * ((exp (T * L) - 1) / L)) * h)%R.
+Proof. exact euler_converges. Qed.
+Print Assumptions C03_euler_converges.
+
+(* the same for systems of any dimension n (max norm), any quadrature part *)
+Theorem C03_euler_converges_systems :
+  forall (sys : sysfun R) (n nq : nat) (x : nat -> R -> R) (t0 T L K : R) (M : nat),
+  (0 < T)%R -> (0 < L)%R -> (0 <= K)%R -> (0 < M)%nat ->
+  (forall X t, length X = n -> length (s_ode sys X t) = n) ->
+  (forall i t, (i < n)%nat -> (t0 <= t <= t0 + T)%R ->
+     is_derive (x i) t (nth i (s_ode sys (xvec n x t) t) 0%R)) ->
+  (forall i t, (i < n)%nat -> (t0 <= t <= t0 + T)%R -> ex_derive_n (x i) 2 t) ->
+  (forall i t, (i < n)%nat -> (t0 <= t <= t0 + T)%R -> (Rabs (Derive_n (x i) 2 t) <= K)%R) ->
+  (forall i t X Y, (i < n)%nat -> (t0 <= t <= t0 + T)%R -> length X = n -> length Y = n ->
+     (Rabs (nth i (s_ode sys X t) 0 - nth i (s_ode sys Y t) 0) <= L * dist_max n X Y)%R) ->
+  let h := (T / INR M)%R in
+  let X0 := xvec n x t0 in
+  let st := @discrete_system R ROps (intg_expl_euler sys) M nq X0 T t0 in
+  forall j i, (j <= M)%nat -> (i < n)%nat ->
+    (Rabs (nth i (nth j (ds_X st) X0) 0 - x i (t0 + INR j * h)) <= (K / 2 * ((exp (T * L) - 1) / L)) * h)%R.
+Proof. exact euler_converges_vec. Qed.
+Print Assumptions C03_euler_converges_systems.
+
+(* ocp.integral under expl_euler as modelled (one quadrature state with integrand g): the accumulated quadrature is
+   within O(h) of the Riemann integral of g along the exact solution, explicit constant *)
+Theorem C03_euler_integral_converges :
+  forall (sys : sysfun R) (g : list R -> R -> R) (n : nat) (x : nat -> R -> R) (t0 T L Lg K D : R) (M : nat),
+  (0 < T)%R -> (0 < L)%R -> (0 <= K)%R -> (0 <= Lg)%R -> (0 < M)%nat ->
+  (forall X t, length X = n -> length (s_ode sys X t) = n) ->
+  (forall X t, s_quad sys X t = [g X t]) ->
+  (forall i t, (i < n)%nat -> (t0 <= t <= t0 + T)%R ->
+     is_derive (x i) t (nth i (s_ode sys (xvec n x t) t) 0%R)) ->
+  (forall i t, (i < n)%nat -> (t0 <= t <= t0 + T)%R -> ex_derive_n (x i) 2 t) ->
+  (forall i t, (i < n)%nat -> (t0 <= t <= t0 + T)%R -> (Rabs (Derive_n (x i) 2 t) <= K)%R) ->
+  (forall i t X Y, (i < n)%nat -> (t0 <= t <= t0 + T)%R -> length X = n -> length Y = n ->
+     (Rabs (nth i (s_ode sys X t) 0 - nth i (s_ode sys Y t) 0) <= L * dist_max n X Y)%R) ->
+  (forall t X Y, (t0 <= t <= t0 + T)%R -> length X = n -> length Y = n ->
+     (Rabs (g X t - g Y t) <= Lg * dist_max n X Y)%R) ->
+  (forall t, ex_derive (fun s => g (xvec n x s) s) t) ->
+  (forall t, (t0 <= t <= t0 + T)%R -> (Rabs (Derive (fun s => g (xvec n x s) s) t) <= D)%R) ->
+  let h := (T / INR M)%R in
+  let st := @discrete_system R ROps (intg_expl_euler sys) M 1 (xvec n x t0) T t0 in
+  (Rabs (nth 0 (ds_quad st) 0 - RInt (fun s => g (xvec n x s) s) t0 (t0 + T))
+   <= (T * (Lg * (K / 2 * ((exp (T * L) - 1) / L)) + D / 2)) * h)%R.
+Proof. exact euler_integral_converges. Qed.
+Print Assumptions C03_euler_integral_converges.
+
+(* rk on the linear test equation x' = lam x: local error of the stability polynomial against exp (Taylor-Lagrange
+   of order 5) and the resulting global error C h^4 of the model's loop, explicit constant *)
+Theorem C03_rk4_local_error_linear :
+  forall z : R, (Rabs z <= 1)%R -> (Rabs (rk4R z - exp z) <= exp 1 / 120 * Rabs z ^ 5)%R.
+Proof. exact rk4_local_error. Qed.
+Print Assumptions C03_rk4_local_error_linear.
+
+Theorem C03_rk4_linear_converges :
+  forall (lam x0 t0 T : R) (M : nat),
+  (0 < T)%R -> lam <> 0%R -> (0 < M)%nat ->
+  let h := (T / INR M)%R in
+  (Rabs lam * h <= 1)%R ->
+  let st := @discrete_system R ROps (intg_rk (lin_sys lam)) M 0 [x0] T t0 in
+  let C := ((exp 1 / 120 * Rabs lam ^ 5 * exp (Rabs lam * T) * Rabs x0)
+           * ((exp (T * (2 * Rabs lam)) - 1) / (2 * Rabs lam)))%R in
+  forall j, (j <= M)%nat ->
+    (Rabs (nth 0 (nth j (ds_X st) [x0]) 0 - exp (lam * (INR j * h)) * x0) <= C * h ^ 4)%R.
+Proof. exact rk4_linear_converges. Qed.
+Print Assumptions C03_rk4_linear_converges.
+
+(* non-vacuity of the two convergence theorems: x' = x with x = exp (Euler), x' = -x on [t0, t0+1] (rk) *)
+Example C03_convergence_nonvacuous : True /\ True.
+Proof. pose proof euler_converges_exp as _. pose proof rk4_linear_converges_decay as _.
+  pose proof euler_converges_rotation as _. pose proof euler_integral_rotation as _. split; exact I. Qed.
 
 (* non-vacuity: the error recursion's hypotheses are met by the exact error sequence of Euler on
    x' = 0 (e = 0), and the field statements have the instance Qc *)
